@@ -148,6 +148,7 @@ type World struct {
 	TraceOn bool
 	silent  bool // tail mode: every message of the Byzantine node is lost
 	vs      *lib.ValidatorSet
+	roundsBase []uint64 // rounds a node had started before its root-height bumps (rounds restart at 0 on a bump)
 }
 
 func (w *World) tracef(f string, a ...any) {
@@ -299,6 +300,7 @@ func clone(m *bft.Message) *bft.Message { return proto.Clone(m).(*bft.Message) }
 // New builds the world: n nodes at round 0, ELECTION, root height BaseRH.
 func New(cfg Config) *World {
 	w := &World{Cfg: cfg, Blocks: map[string][]byte{}, Results: map[string]*lib.CertificateResult{}, Signed: map[string]map[int]map[string]bool{}}
+	w.roundsBase = make([]uint64, len(cfg.Powers))
 	w.Vals = &lib.ConsensusValidators{}
 	for i, p := range cfg.Powers {
 		w.Vals.ValidatorSet = append(w.Vals.ValidatorSet, &lib.ConsensusValidator{PublicKey: env.BLS(i).PublicKey().Bytes(), VotingPower: p, NetAddress: fmt.Sprintf("tcp://n%d", i)})
@@ -454,6 +456,7 @@ func (w *World) BumpRoot(i int, rh uint64) {
 		return
 	}
 	n.ctl.rh = rh
+	w.roundsBase[i] += n.BFT.Round + 1
 	n.ctl.Lock()
 	n.BFT.NewHeight(true)
 	n.ctl.Unlock()
